@@ -129,36 +129,44 @@ Qed.
 (* the dict form                                                       *)
 (* ------------------------------------------------------------------ *)
 Lemma dict_get_find k l :
-  dict_get k l = match find (fun kv : N * value => N.eqb (fst kv) k) l with
+  dict_get k l = match find (fun kv : N * hval => N.eqb (fst kv) k) l with
                  | Some kv => Some (snd kv) | None => None end.
 Proof.
   induction l as [|[k' v] l IH]; [reflexivity|]. cbn. destruct (N.eqb k' k); [reflexivity|exact IH].
 Qed.
 
 Lemma dict_loop_ok S xstq (st : store) dict : forall pts,
-  dict_guard S pts dict = true ->
+  dict_guard S (length st) pts dict = true ->
   exists entries,
-    ref_dict S xstq pts dict = Some entries /\
-    dict_loop S xstq pts dict = HOk (map RFresh entries).
+    ref_dict S xstq (map ce_tree st) pts dict = Some entries /\
+    dict_loop S xstq st pts dict = HOk (map RFresh entries).
 Proof.
   induction pts as [|d pts IH]; intro Hg.
   - exists []. split; reflexivity.
   - cbn [dict_guard] in Hg. cbn [ref_dict dict_loop].
     pose proof (dict_get_find (e_name d) dict) as Hf.
-    destruct (dict_get (e_name d) dict) as [v|] eqn:Hd.
-    + destruct (find (fun kv : N * value => N.eqb (fst kv) (e_name d)) dict) as [kv|]; [|discriminate]. inversion Hf; subst v.
-      apply andb_true_iff in Hg as [Hv Hg]. destruct (IH Hg) as [es [Hr Hl]].
-      rewrite (ref_entry_ok S xstq d (snd kv) Hv).
-      destruct (add_entry_ok_l S xstq d (snd kv) Hv) as [xs [Hx [Hm _]]].
-      destruct (snd kv) as [|t|l|ty fs].
-      * exists es. split; [rewrite Hr; reflexivity | exact Hl].
-      * exists (xs ++ es). split; [rewrite Hx, Hr; reflexivity|].
-        rewrite Hm. cbn [hbind]. rewrite Hl, map_app. reflexivity.
-      * exists (xs ++ es). split; [rewrite Hx, Hr; reflexivity|].
-        rewrite Hm. cbn [hbind]. rewrite Hl, map_app. reflexivity.
-      * exists (xs ++ es). split; [rewrite Hx, Hr; reflexivity|].
-        rewrite Hm. cbn [hbind]. rewrite Hl, map_app. reflexivity.
-    + destruct (find (fun kv : N * value => N.eqb (fst kv) (e_name d)) dict); [discriminate|]. destruct (IH Hg) as [es [Hr Hl]].
+    destruct (dict_get (e_name d) dict) as [hv|] eqn:Hd.
+    + destruct (find (fun kv : N * hval => N.eqb (fst kv) (e_name d)) dict) as [kv|]; [|discriminate]. inversion Hf; subst hv.
+      destruct (snd kv) as [i|v]; cbn [ref_dict_value].
+      * (* a ready-made element as the value: wrapped, sent as it is *)
+        apply andb_true_iff in Hg as [Hi Hg]. destruct (IH Hg) as [es [Hr Hl]].
+        apply Nat.ltb_lt in Hi.
+        destruct (nth_error st i) as [ce|] eqn:Hce; [|apply nth_error_None in Hce; lia].
+        exists (ce_tree ce :: es). split.
+        -- rewrite (nth_error_map_tree st i ce Hce), Hr. reflexivity.
+        -- unfold wrapped_of, copy_of. rewrite Hce. cbn [hbind]. rewrite Hl. reflexivity.
+      * apply andb_true_iff in Hg as [Hv Hg]. destruct (IH Hg) as [es [Hr Hl]].
+        rewrite (ref_entry_ok S xstq d v Hv).
+        destruct (add_entry_ok_l S xstq d v Hv) as [xs [Hx [Hm _]]].
+        destruct v as [|t|l|ty fs].
+        -- exists es. split; [rewrite Hr; reflexivity | exact Hl].
+        -- exists (xs ++ es). split; [rewrite Hx, Hr; reflexivity|].
+           rewrite Hm. cbn [hbind]. rewrite Hl, map_app. reflexivity.
+        -- exists (xs ++ es). split; [rewrite Hx, Hr; reflexivity|].
+           rewrite Hm. cbn [hbind]. rewrite Hl, map_app. reflexivity.
+        -- exists (xs ++ es). split; [rewrite Hx, Hr; reflexivity|].
+           rewrite Hm. cbn [hbind]. rewrite Hl, map_app. reflexivity.
+    + destruct (find (fun kv : N * hval => N.eqb (fst kv) (e_name d)) dict); [discriminate|]. destruct (IH Hg) as [es [Hr Hl]].
       exists es. split; [rewrite Hr; reflexivity | exact Hl].
 Qed.
 
@@ -211,7 +219,7 @@ Proof.
     + assert (es = []).
       { clear -Hr. revert es Hr. induction pts as [|d pts IH]; intros es Hr; cbn in Hr.
         - inversion Hr. reflexivity.
-        - destruct (ref_dict S xstq pts []) as [r|]; [|discriminate].
+        - destruct (ref_dict S xstq (map ce_tree st) pts []) as [r|]; [|discriminate].
           inversion Hr; subst es. apply IH. reflexivity. }
       subst es. cbn. rewrite app_nil_r. reflexivity.
     + rewrite Hl. reflexivity.
@@ -256,20 +264,23 @@ Proof.
       destruct v; try (apply Hcase, H). eapply IH, H.
 Qed.
 
-Lemma dict_loop_fresh S xstq dict : forall pts r,
-  dict_loop S xstq pts dict = HOk r -> forallb is_fresh r = true.
+Lemma dict_loop_fresh S xstq st dict : forall pts r,
+  dict_loop S xstq st pts dict = HOk r -> forallb is_fresh r = true.
 Proof.
   induction pts as [|d pts IH]; intros r H.
   - inversion H. reflexivity.
   - cbn [dict_loop] in H.
     assert (Hcase : forall v, hbind (add_entry S xstq d v) (fun h =>
-                       hbind (dict_loop S xstq pts dict) (fun r => HOk (map RFresh h ++ r))) = HOk r ->
+                       hbind (dict_loop S xstq st pts dict) (fun r => HOk (map RFresh h ++ r))) = HOk r ->
                      forallb is_fresh r = true).
     { intros v Hv. destruct (add_entry S xstq d v) as [h|]; [|discriminate]. cbn [hbind] in Hv.
-      destruct (dict_loop S xstq pts dict) as [r'|] eqn:Hl; [|discriminate].
+      destruct (dict_loop S xstq st pts dict) as [r'|] eqn:Hl; [|discriminate].
       inversion Hv; subst r. rewrite forallb_app, forallb_fresh_map. apply IH. reflexivity. }
-    destruct (dict_get (e_name d) dict) as [v|]; [|apply IH, H].
-    destruct v; try (eapply Hcase, H). apply IH, H.
+    destruct (dict_get (e_name d) dict) as [[i|v]|]; [| |apply IH, H].
+    + unfold wrapped_of, copy_of in H. destruct (nth_error st i); [|discriminate]. cbn [hbind] in H.
+      destruct (dict_loop S xstq st pts dict) as [r'|] eqn:Hl; [|discriminate].
+      inversion H; subst r. cbn. apply IH. reflexivity.
+    + destruct v; try (eapply Hcase, H). apply IH, H.
 Qed.
 
 Lemma headercontent_fresh S xstq st pts wsse sh refs stamps :
@@ -288,7 +299,7 @@ Proof.
     destruct (seq_loop S xstq st pts 0 (h :: l)) as [r|] eqn:Hl; [|discriminate].
     inversion H; subst. rewrite forallb_app, H0. eapply seq_loop_fresh, Hl.
   - destruct l as [|h l]; [inversion H; subst; exact H0|].
-    destruct (dict_loop S xstq pts (h :: l)) as [r|] eqn:Hl; [|discriminate].
+    destruct (dict_loop S xstq st pts (h :: l)) as [r|] eqn:Hl; [|discriminate].
     inversion H; subst. rewrite forallb_app, H0. eapply dict_loop_fresh, Hl.
 Qed.
 
@@ -436,7 +447,7 @@ Proof.
     + destruct l as [|h l]; [reflexivity|].
       destruct (seq_loop S xstq st pts 0 (h :: l)); reflexivity.
     + destruct l as [|h l]; [reflexivity|].
-      destruct (dict_loop S xstq pts (h :: l)); reflexivity.
+      destruct (dict_loop S xstq st pts (h :: l)); reflexivity.
   - unfold sec_xml in Hx. destruct (tokens_xml (sec_tokens s)) as [[xs ss]|]; [|discriminate].
     inversion Hx. reflexivity.
   - unfold sec_xml in Hx. destruct (tokens_xml (sec_tokens s)) as [[xs ss]|] eqn:Ht; [|discriminate].
@@ -653,12 +664,12 @@ Proof.
     rewrite add_entry_repaired. destruct v; reflexivity.
 Qed.
 
-Lemma dict_loop_repaired S xstq dict : forall pts,
-  dict_loop_q S xstq repaired pts dict = dict_loop S xstq pts dict.
+Lemma dict_loop_repaired S xstq st dict : forall pts,
+  dict_loop_q S xstq st repaired pts dict = dict_loop S xstq st pts dict.
 Proof.
   induction pts as [|d pts IH]; [reflexivity|].
   cbn [dict_loop_q dict_loop]. rewrite IH.
-  destruct (dict_get (e_name d) dict) as [v|]; [|reflexivity].
+  destruct (dict_get (e_name d) dict) as [[i|v]|]; [reflexivity| |reflexivity].
   rewrite add_entry_repaired. reflexivity.
 Qed.
 
@@ -671,3 +682,57 @@ Proof.
   - destruct l; [reflexivity|]. rewrite seq_loop_repaired. reflexivity.
   - destruct l; [reflexivity|]. rewrite dict_loop_repaired. reflexivity.
 Qed.
+
+(* ------------------------------------------------------------------ *)
+(* a ready-made element as the value of a declared part (dict form)     *)
+(* ------------------------------------------------------------------ *)
+Lemma element_value_sent_verbatim_l : forall S xstq st d pts dict i ce,
+  dict_get (e_name d) dict = Some (HElem i) -> nth_error st i = Some ce ->
+  dict_loop S xstq st (d :: pts) dict =
+    hbind (dict_loop S xstq st pts dict) (fun r => HOk (RFresh (ce_tree ce) :: r)).
+Proof.
+  intros S xstq st d pts dict i ce Hd Hce. cbn [dict_loop]. rewrite Hd.
+  unfold wrapped_of, copy_of. rewrite Hce. reflexivity.
+Qed.
+
+(* ------------------------------------------------------------------ *)
+(* which declared parts a request is built from                        *)
+(* ------------------------------------------------------------------ *)
+Lemma fold_register_in l : forall s,
+  fold_left (register true) l s = mkSoapH (sh_in s ++ l) (sh_out s).
+Proof.
+  induction l as [|h l IH]; intro s; cbn [fold_left].
+  - rewrite app_nil_r. destruct s; reflexivity.
+  - rewrite IH. cbn. rewrite <- app_assoc. reflexivity.
+Qed.
+
+Lemma fold_register_out l : forall s,
+  fold_left (register false) l s = mkSoapH (sh_in s) (sh_out s ++ l).
+Proof.
+  induction l as [|h l IH]; intro s; cbn [fold_left].
+  - rewrite app_nil_r. destruct s; reflexivity.
+  - rewrite IH. cbn. rewrite <- app_assoc. reflexivity.
+Qed.
+
+(* the soap:header children of wsdl:input are the request's parts, those of
+   wsdl:output the reply's, each in document order *)
+Lemma request_parts_are_the_input_side_l : forall ins outs,
+  headpart_types (add_operation ins outs) true = ins /\
+  headpart_types (add_operation ins outs) false = outs.
+Proof.
+  intros. unfold add_operation, add_operation_q. rewrite fold_register_in, fold_register_out.
+  split; reflexivity.
+Qed.
+
+Lemma request_parts_eq ins outs : request_parts ins outs = ins.
+Proof. apply request_parts_are_the_input_side_l. Qed.
+
+(* the variant kept for naming the defect: the reply's parts follow the request's *)
+Lemma slip_appends_reply_parts ins outs :
+  headpart_types (add_operation_q true ins outs) true = ins ++ outs.
+Proof. unfold add_operation_q. rewrite !fold_register_in. reflexivity. Qed.
+
+(* whatever the reply declares, the request is the one built from the input side alone *)
+Lemma reply_header_parts_not_in_request_l : forall S xstq ins outs wsse sh m st,
+  send (mkCfg S xstq (request_parts ins outs) wsse sh) m st = send (mkCfg S xstq ins wsse sh) m st.
+Proof. intros. rewrite request_parts_eq. reflexivity. Qed.
